@@ -169,6 +169,10 @@ class CFG:
             r, p = self.resolve_place(rv["place"], depth + 1)
             return r, p + proj
         if k == "CallResult":
+            t = rv["term"]
+            if callee_name(t) in TRANSPARENT_CALLS and len(t["args"]) == 1 and t["args"][0]["k"] in ("Copy", "Move"):
+                r, p = self.resolve_place(t["args"][0]["place"], depth + 1)
+                return r, p + proj
             return ("call", rv["term"], d[0]), proj
         return ("local", l), proj
 
@@ -243,6 +247,9 @@ class CFG:
                 continue
             return None
         return None
+
+
+TRANSPARENT_CALLS = {"deref", "deref_mut", "as_str", "as_ref", "as_mut", "borrow", "borrow_mut", "as_slice", "as_mut_slice"}
 
 
 def callee_name(t):
